@@ -14,6 +14,10 @@
 #! run j 5+6 => nvv 11 22
 #! run k 40 => tsv 2 40 4
 #! run f  3 + 45 => nvl 48 3 9
+#! pin scanBytes=false
+#! pin caseInsensitive=false
+#! pin nonBacktracking=false
+#! pin tokenColumn=false
 language @NAME@(go);
 
 package = "scratch/@NAME@"
